@@ -125,6 +125,13 @@ func main() {
 			fmt.Println("queries in", r.workdir)
 		}
 		fmt.Printf("%d obligations, %d not discharged\n", len(rs), bad)
+	case "sweep":
+		w, err := LoadWorld(*repo)
+		if err != nil {
+			fmt.Fprintln(os.Stderr, "error:", err)
+			os.Exit(2)
+		}
+		runSweep(w, pos, *timeout)
 	case "list":
 		w, err := LoadWorld(*repo)
 		if err != nil {
